@@ -41,4 +41,8 @@ def run(tier: str, seed: int):
         cfgs, serial, e3c = list(cfgs) + x_cf, list(serial) + x_se, list(e3c) + x_e3
     # the backend object has been through an earlier call that a failure aborted; workers killed by a signal without a name
     e3c = list(e3c) + list(F.fam_e3([c for c in F.fam_faults(2, 2, max_faults=1, reqs='all')], workers=(1, 2), liveness=False, prelude=True)) + list(F.fam_e3(F.fam_faults(1, 2, max_faults=1, reqs='sinks', kinds=('died',)), workers=(1, 2), die_exit0=(-36,), liveness=False))
+    # the Lab object has been through a call that a failure aborted while limited-type tasks were in flight
+    cfgs = list(cfgs) + list(F.fam_history_abort(2))
+    serial = list(serial) + list(F.fam_history_abort(2))
+    e3c = list(e3c) + list(F.fam_e3([c for c in F.fam_history_abort(2) if c.spec.n <= 2], workers=(3,), cpu_count=3, backends=('fork',), liveness=False))
     return run_e2_property('C11', tier, seed, cfgs, serial_configs=serial, e3_configs=e3c, real_cases=list(F.fam_real(F.real_bases('faults') + F.real_bases('limits'), workers=(1, 2))), rule=rule, assumptions=ASSUME)
